@@ -45,6 +45,7 @@ func main() {
 	out := flag.String("out", "", "")
 	gen := flag.String("gen", "", "directory for generated files")
 	mutant := flag.String("mutant", "", "")
+	onlyMutant := flag.Bool("only-mutant", false, "leave the harness out (for running the repository's own tests with a mutant)")
 	flag.Parse()
 
 	replace := map[string]string{}
@@ -53,7 +54,7 @@ func main() {
 		if err != nil {
 			return err
 		}
-		if info.IsDir() {
+		if info.IsDir() || *onlyMutant {
 			return nil
 		}
 		rel, _ := filepath.Rel(src, p)
